@@ -145,7 +145,7 @@ def _recursion_complete(fn: FuncInfo, body: list, subject: str, over_values: boo
 # C02 / C15: discovery and normalisation tables
 
 
-@rule('C02.DISCOVER-TABLE', ['C02', 'C15', 'C20'], min_instances=4)
+@rule('C02.DISCOVER-TABLE', ['C02', 'C15', 'C20', 'C01', 'C03'], min_instances=4)
 def discover_table(ctx: Ctx):
     """find_tasks_in_param recurses into every container kind construction can produce or accept, fully;
     get_direct_dependencies looks at every field."""
@@ -308,7 +308,7 @@ def type_tables(ctx: Ctx):
                      '' if ok else f'{fn.name} falls through without raising for unsupported values', construct=f'raise:{fn.name}')
 
 
-@rule('C15.NORMALISE-ALL-PATHS', ['C15'], min_instances=4)
+@rule('C15.NORMALISE-ALL-PATHS', ['C15', 'C07'], min_instances=4)
 def normalise_all_paths(ctx: Ctx):
     """Every exit of immutable_param_value is tuple(<recursion over all items>), frozendict(<recursion over
     all values, keys through ensure_dict_key_str>), the value itself under a scalar-or-task guard, or
@@ -616,7 +616,7 @@ def _nondet_in(ctx: Ctx, fns: list[FuncInfo]):
     return out
 
 
-@rule('C07.NONDET-FREE', ['C07', 'C16'])
+@rule('C07.NONDET-FREE', ['C07', 'C16', 'C06'])
 def nondet_free(ctx: Ctx):
     """The effect closure of cache_key contains no nondeterminism source, no memoisation by equality and
     reads neither context nor result state."""
@@ -643,7 +643,7 @@ def nondet_free(ctx: Ctx):
                  '' if not nd and not bad else 'see the individual reports', construct='closure')
 
 
-@rule('C07.FIELD-COVER', ['C07', 'C06'])
+@rule('C07.FIELD-COVER', ['C07', 'C06', 'C09'])
 def field_cover(ctx: Ctx):
     """serialize_task covers every field and the class (module + qualname); cache_key hashes the JSON of the
     whole serialised task and contains hash, qualname and the cache's KEY_PREFIX."""
@@ -850,7 +850,7 @@ def charset(ctx: Ctx):
                  'the validator forbids a character that occurs in identifiers or hex digests', construct='abstract-classes', path='labtech/storage.py')
 
 
-@rule('C07.KEY-ONCE', ['C07', 'C06'])
+@rule('C07.KEY-ONCE', ['C07', 'C06', 'C09'])
 def key_once(ctx: Ctx):
     """The cache key is computed once, after the fields were normalised, and travels with the pickled task."""
     pi = ctx.P.attachments.get('__post_init__')
@@ -924,7 +924,7 @@ def shape_disjoint(ctx: Ctx):
 # C09 (serialiser side)
 
 
-@rule('C09.SER-DESER-TABLE', ['C09'], min_instances=4)
+@rule('C09.SER-DESER-TABLE', ['C09', 'C07'], min_instances=4)
 def ser_deser_table(ctx: Ctx):
     """For every output shape of serialize_value, deserialize_value has a branch applying the inverse:
     marker tests first, then recursion over all list items and all dict values."""
